@@ -519,6 +519,8 @@ def key_paths(ctx) -> None:
 
 
 def run(ctx) -> None:
+    # nothing is computed from a loop variable after its loop ran to completion (it would be the last element's value)
+    shared.r_staleloop(ctx, ctx.prog.functions([m for m in ctx.prog.modules if m.startswith(('forml.io.asset', 'forml.provider.registry'))]))
     key_paths(ctx)
     staged_guard(ctx)
     from . import C08
